@@ -42,6 +42,22 @@ check("C04", "TLC enumeration of WxmlSem families with Render attached + replay 
       "DESIGN.md §4.3, §6 C04")
 
 
+check("C05", "TLC enumeration of scope family F6 (creation) and MCInstance F6 (updates of shadowed fields) + replay",
+      "TLC enumerates nested for/slot/wxs scope shapes with colliding names and every identifier position of every "
+      "expression form, with distinct sentinels per scope and data field; Render/Resolve give the value each occurrence "
+      "must show; replayed in creation and after updates that change only shadowed data fields (exact/coarse/true "
+      "coverings), where the values must not move.",
+      "DESIGN.md §4.3, §6 C05")
+check("C06", "TLC exploration of Instance histories (edits x coverings, covering soundness asserted) + replay with two oracles",
+      "TLC explores create/update histories over nine template families with the edit menu of spec/Instance.tla (all "
+      "subsets of leaf toggles, list growth/shrinkage/reversal/duplicate keys/kind changes, object replacement) and "
+      "exact/coarsened/true coverings, asserting that every covering covers Diff and that the reference instance equals "
+      "a fresh render; every behaviour (seeded 1/12 sample of the big families in the quick tier, all of them plus "
+      "random length-3 histories in the thorough tier) is replayed: after each step the projected tree must equal the "
+      "spec's tree and a fresh creation.",
+      "DESIGN.md §4.4, §6 C06")
+
+
 def main():
     props = [json.loads(l) for l in open(os.path.join(HERE, "properties.jsonl"))]
     ids = [p["id"] for p in props]
